@@ -84,15 +84,12 @@ theorem C06_ligature (i : Input) (P : Program) (hwf : wf i = true) (hm : model i
     mem_candidates_iff.mp (C06_candidate i P hwf hm b m (some j) d h)
   exact ⟨gb, gm, hb, hgm, sm, hsm, k, hn, sb, hsb, by simpa [baseNameMatches] using hmatch, hd⟩
 
-/-- **C06_complete**: every eligible (glyph, mark, component) — matching anchors on a plain key, both glyphs passing the
-    GDEF / category filters — is attached by the generated lookups. -/
-theorem C06_complete (i : Input) (P : Program) (hwf : wf i = true) (hm : model i = .ok P) (b m : String) (c : Option Nat)
-    (he : eligible i b m c = true) : (attach P P.lookups b m c).isSome = true := by
-  obtain ⟨al, hal, rfl⟩ := model_ok hm
-  have w := alwf_of_ok (wf_wf0 hwf) hal
-  have cv := alcov_of_ok hal
-  have nl : NoLib i := wf_nolib hwf
-  obtain ⟨_, hcover⟩ := wf_iff i (wf_wf0 hwf)
+/-- the core of completeness, for any well-formed anchor list (object-lib data and contextual anchors allowed): an eligible
+    (glyph, mark, component) is attached by one of the non-contextual lookups of `build` -/
+theorem complete_build {i : Input} {al : AList} (w : ALwf i al) (cv : ALcov i al)
+    (hcover : ∀ g ∈ i.glyphs, g.name ∈ i.abvm ∨ g.name ∈ i.notAbvm) {b m : String} {c : Option Nat}
+    (he : eligible i b m c = true) :
+    ∃ L ∈ (build i al).lookups, (attachLookup (build i al) L b m c).isSome = true := by
   unfold eligible at he
   cases hfb : findGlyph i b with
   | none => rw [hfb] at he; simp at he
@@ -112,15 +109,15 @@ theorem C06_complete (i : Input) (P : Program) (hwf : wf i = true) (hm : model i
         simp only [Bool.and_eq_true, any_eq_true] at hpair
         obtain ⟨hpk, sb, hsb, hmatch⟩ := hpair
         obtain ⟨hn, _⟩ := markKey_some hmk
-        obtain ⟨am, ham, hmm, hmkey⟩ := na_of_src_mark cv nl hgm (by rw [hgmn]; exact hincm) hsm hn hpk
-        obtain ⟨ab, hab, hnb, hbkey, hbnum⟩ := na_of_src_base cv nl hgb (by rw [hgbn]; exact hincb) hsb hpk c hmatch
+        obtain ⟨am, ham, hmm, hmkey, hmname⟩ := na_of_src_mark cv hgm (by rw [hgmn]; exact hincm) hsm hn hpk
+        obtain ⟨ab, hab, hnb, hbkey, hbnum, hplb⟩ := na_of_src_base w cv hgb (by rw [hgbn]; exact hincb) hsb hpk c hmatch
         rw [hgmn] at ham
         rw [hgbn] at hab
         obtain ⟨asm0, hasm0, ham0⟩ := ham
         obtain ⟨asb0, hasb0, hab0⟩ := hab
-        have hplb : ab.ctx = none := noctx w nl hasb0 hab0
+        have hplm : am.ctx = none := plain_of_us w hasm0 ham0 (by rw [hmname]; exact hn)
         have p : Pair al b m ab am :=
-          ⟨⟨asb0, hasb0, hab0⟩, ⟨asm0, hasm0, ham0⟩, hnb, hmm, noctx w nl hasm0 ham0, by rw [hmkey, hbkey]⟩
+          ⟨⟨asb0, hasb0, hab0⟩, ⟨asm0, hasm0, ham0⟩, hnb, hmm, hplm, by rw [hmkey, hbkey]⟩
         obtain ⟨fB, fM, inc, mf, hinc, hmf, rB, rL, rM⟩ := route al ab (hcover gb hgb |> fun h => by rw [hgbn] at h; exact h)
         cases c with
         | none =>
@@ -128,23 +125,23 @@ theorem C06_complete (i : Input) (P : Program) (hwf : wf i = true) (hm : model i
           simp only [Bool.or_eq_true] at hcond
           by_cases hmg : b ∈ mgOf i al
           · obtain ⟨L, hL, hs⟩ := mkmk_attach w p hokm hplb hbnum hmg fM inc mf hinc hmf
-            exact attach_isSome_of_mem (rM L hL) hs
+            exact ⟨L, rM L hL, hs⟩
           · have hbase : baseOK i b = true := by
               rcases hcond with h | h
-              · exact absurd (mg_of_isMarkGlyph w cv nl hfb h) hmg
+              · exact absurd (mg_of_isMarkGlyph w cv hfb h) hmg
               · exact h
             obtain ⟨L, hL, hs⟩ := base_attach w p hokm hplb hbnum hmg hbase fB inc mf hinc hmf
-            exact attach_isSome_of_mem (rB L hL) hs
+            exact ⟨L, rB L hL, hs⟩
         | some j =>
           simp only [Option.map_some] at hbnum
           simp only [Bool.and_eq_true, Bool.not_eq_true'] at hcond
           obtain ⟨⟨hnmk, hlig⟩, hnull⟩ := hcond
           have hmg : b ∉ mgOf i al := by
             intro h
-            rw [isMarkGlyph_of_mg w nl hfb h] at hnmk; simp at hnmk
-          have hnonull : ∀ as, (b, as) ∈ al → ∀ a ∈ as, a.number = some (j + 1) → a.key ≠ "" := by
-            intro as has a ha hnum hkey
-            have hsa := w.shape _ has a ha (noctx w nl has ha)
+            rw [isMarkGlyph_of_mg w hfb h] at hnmk; simp at hnmk
+          have hnonull : ∀ as, (b, as) ∈ al → ∀ a ∈ as, a.ctx = none → a.number = some (j + 1) → a.key ≠ "" := by
+            intro as has a ha hpl hnum hkey
+            have hsa := w.shape _ has a ha hpl
             have hnmark : a.isMark = false := by
               cases hmk' : a.isMark with
               | false => rfl
@@ -160,7 +157,16 @@ theorem C06_complete (i : Input) (P : Program) (hwf : wf i = true) (hm : model i
               any_eq_true.mpr ⟨s, hs, by rw [hsn]; simpa using hl⟩
             rw [this] at hnull; simp at hnull
           obtain ⟨L, hL, hs⟩ := lig_attach w p hokm hplb j hbnum hmg hlig hnonull fB inc mf hinc hmf
-          exact attach_isSome_of_mem (rL L hL) hs
+          exact ⟨L, rL L hL, hs⟩
+
+/-- **C06_complete**: every eligible (glyph, mark, component) — matching anchors on a plain key, both glyphs passing the
+    GDEF / category filters — is attached by the generated lookups. -/
+theorem C06_complete (i : Input) (P : Program) (hwf : wf i = true) (hm : model i = .ok P) (b m : String) (c : Option Nat)
+    (he : eligible i b m c = true) : (attach P P.lookups b m c).isSome = true := by
+  obtain ⟨al, hal, rfl⟩ := model_ok hm
+  obtain ⟨_, hcover⟩ := wf_iff i (wf_wf0 hwf)
+  obtain ⟨L, hL, hs⟩ := complete_build (alwf_of_ok (wf_wf0 hwf) hal) (alcov_of_ok hal) hcover he
+  exact attach_isSome_of_mem hL hs
 
 
 /-! ### the Bool predicates the driver evaluates on OBSERVED tables hold of the model's own tables -/
@@ -462,6 +468,65 @@ theorem C06_offset_general (i : Input) (X : ProgramX) (hwf : wf0 i = true) (hm :
   obtain ⟨al, cm, ck, hal, _, rfl⟩ := modelX_ok hm
   have h2 : attach (build i al) ls b m c = some d := (attach_congr (by rfl) ls b m c).trans h
   exact offset_sound (alwf_of_ok hwf hal) (fun L hL => mem_orderLookups (hls L hL)) h2
+
+theorem build_lookup_feature {i : Input} {al : AList} {L : Lookup} (h : L ∈ (build i al).lookups) :
+    L.feature = "abvm" ∨ L.feature = "blwm" ∨ L.feature = "mark" ∨ L.feature = "mkmk" := by
+  rw [build_eq] at h
+  simp only [mem_append] at h
+  rcases h with ((h | h) | h) | h
+  · exact Or.inl (abvmLOf_feature h)
+  · exact Or.inr (Or.inl (blwmLOf_feature h))
+  · exact Or.inr (Or.inr (Or.inl (markLOf_feature h)))
+  · exact Or.inr (Or.inr (Or.inr (mkmkLOf_feature h)))
+
+theorem mem_orderLookups_of {ls : List Lookup} {a b : Bool} {L : Lookup} (h : L ∈ ls)
+    (hf : L.feature = "abvm" ∨ L.feature = "blwm" ∨ L.feature = "mark" ∨ L.feature = "mkmk") : L ∈ orderLookups ls a b := by
+  unfold orderLookups
+  simp only [mem_append]
+  rcases hf with hf | hf | hf | hf
+  · exact Or.inl (Or.inl (Or.inl (Or.inr (mem_filter.mpr ⟨h, by simp [hf]⟩))))
+  · exact Or.inl (Or.inl (Or.inr (mem_filter.mpr ⟨h, by simp [hf]⟩)))
+  · cases a with
+    | true => exact Or.inl (Or.inl (Or.inl (Or.inl (Or.inl (mem_filter.mpr ⟨h, by simp [hf]⟩)))))
+    | false => exact Or.inl (Or.inr (mem_filter.mpr ⟨h, by simp [hf]⟩))
+  · cases b with
+    | true => exact Or.inl (Or.inl (Or.inl (Or.inl (Or.inr (mem_filter.mpr ⟨h, by simp [hf]⟩)))))
+    | false => exact Or.inr (mem_filter.mpr ⟨h, by simp [hf]⟩)
+
+/-- **C06_complete_general** (frame, completeness half): also in the presence of object-lib data and contextual anchors every
+    eligible (glyph, mark, component) — a plain `k` / `k_N` on the glyph, `_k` on the mark, both passing the GDEF / category
+    filters — is attached by the non-contextual lookups; contextual anchors take part in deciding what a mark glyph is
+    (`isMarkGlyph` counts `*k` with lib data as a base-side anchor) but never take an attachment away. -/
+theorem C06_complete_general (i : Input) (X : ProgramX) (hwf : wf0 i = true) (hm : modelX i = .ok X) (b m : String)
+    (c : Option Nat) (he : eligible i b m c = true) : (attach X.plain X.plain.lookups b m c).isSome = true := by
+  obtain ⟨al, cm, ck, hal, _, rfl⟩ := modelX_ok hm
+  obtain ⟨_, hcover⟩ := wf_iff i hwf
+  obtain ⟨L, hL, hs⟩ := complete_build (alwf_of_ok hwf hal) (alcov_of_ok hal) hcover he
+  refine attach_isSome_of_mem (L := L) (mem_orderLookups_of hL (build_lookup_feature hL)) ?_
+  rw [← hs]; exact congrArg Option.isSome (attachLookup_congr (P' := build i al) (by rfl) L b m c)
+
+/-- the Bool predicates on the table of all non-contextual lookups hold of the extended model's own table, object-lib data or not -/
+theorem C06_holds_general (i : Input) (X : ProgramX) (hwf : wf0 i = true) (hm : modelX i = .ok X) (K : Nat) :
+    holdsOffset i (tableOf X.plain X.plain.lookups (allQueries i K)) = true ∧
+    holdsSound i (tableOf X.plain X.plain.lookups (allQueries i K)) = true ∧
+    holdsComplete i K (tableOf X.plain X.plain.lookups (allQueries i K)) = true := by
+  refine ⟨?_, ?_, ?_⟩
+  · simp only [holdsOffset, all_eq_true, contains_iff_mem]
+    intro e he
+    exact C06_offset_general i X hwf hm _ (fun _ h => h) _ _ _ _ (mem_tableOf he)
+  · simp only [holdsSound, all_eq_true, Bool.not_eq_true', isEmpty_eq_false_iff]
+    intro e he
+    exact ne_nil_of_mem (C06_offset_general i X hwf hm _ (fun _ h => h) _ _ _ _ (mem_tableOf he))
+  · simp only [holdsComplete, all_eq_true, Bool.or_eq_true, Bool.not_eq_true', any_eq_true]
+    intro q hq
+    cases he : eligible i q.1 q.2.1 q.2.2 with
+    | false => exact Or.inl rfl
+    | true =>
+      right
+      have := C06_complete_general i X hwf hm _ _ _ he
+      cases ha : attach X.plain X.plain.lookups q.1 q.2.1 q.2.2 with
+      | none => rw [ha] at this; simp at this
+      | some d => exact ⟨(q, d), mem_filterMap.mpr ⟨q, hq, by rw [ha]; rfl⟩, by simp⟩
 
 /-- no contextual anchor is ever written into a non-contextual lookup -/
 theorem C06_plain_lookups_have_no_contextual_anchor (i : Input) (X : ProgramX) (hm : modelX i = .ok X) :
